@@ -327,7 +327,7 @@ def write_work(path, items):
 
 def drive_and_judge(run, label, items, families, driver='harness.drivers.d_tree', describe=None):
     """items: list of {'t':..., 'cfgs': [...]} ; returns number of failing cases reported"""
-    if not items and 'depth' not in families:
+    if not items and 'depth' not in families and 'classobj' not in families:
         return 0
     wd = os.path.join(tla.WORK, f'{run.pid}-{label}')
     os.makedirs(wd, exist_ok=True)
